@@ -124,11 +124,11 @@ def build_history(r, k: dict, *, n_lo=30, n_hi=220) -> list[dict]:
     """-> [{"op":"rx","f":frame,"gap":s}]"""
     rel, frames, _w = _pick_file(r)
     k["base"] = rel
-    rows = _window(r, frames, n_lo, n_hi)
+    rows = [(d, f, 0) for d, f in _window(r, frames, n_lo, n_hi)]
     if r.random() < k.get("p_splice", 0.4):
         rel2, frames2, _ = _pick_file(r)
         k["splice"] = rel2
-        rows2 = _window(r, frames2, 8, 100)
+        rows2 = [(d, f, 1) for d, f in _window(r, frames2, 8, 100)]
         mode = r.choice(["interleave", "append", "prepend"])
         if mode == "append":
             rows = rows + rows2
@@ -145,7 +145,7 @@ def build_history(r, k: dict, *, n_lo=30, n_hi=220) -> list[dict]:
                     j += 1
             rows = out
     p_del, p_dup, p_swap, p_mut, p_tgt = (k.get(x, 0.0) for x in ("p_del", "p_dup", "p_swap", "p_mut", "p_tgt"))
-    seq: list[tuple[str, str]] = []
+    seq: list[tuple[str, str, int]] = []
     cnt = k.setdefault("hist_counts", {})
     if k.get("splice"):
         cnt["hist_splice"] = cnt.get("hist_splice", 0) + 1
@@ -153,10 +153,26 @@ def build_history(r, k: dict, *, n_lo=30, n_hi=220) -> list[dict]:
     def c(name):
         cnt[name] = cnt.get(name, 0) + 1
 
-    for dtm, f in rows:
+    p_nb = k.get("p_neighbour", 0.0)
+    for dtm, f, src in rows:
         if r.random() < p_del:
             c("hist_delete")
             continue
+        if p_nb and not src and f[:2] == " I" and f[7:16] == f[27:36] and f[37:41] in ("000A", "22C9", "2309", "30C9", "3150", "0009") \
+                and f[7:9] in ("01", "02") and r.random() < p_nb:
+            # a neighbour's controller / UFC broadcasts the same kind of array just before ours (other values)
+            nb = f"{f[7:9]}:199990"
+            code = f[37:41]
+            if code == "000A":  # its zones 00-07, other limits than ours
+                q = "".join(f"{z:02X}10{0x01F4 + 10 * z:04X}{0x0898 + 10 * z:04X}" for z in range(8))
+            elif code == "22C9":
+                q = "".join(f"{z:02X}{0x0708 + 10 * z:04X}{0x0A28 + 10 * z:04X}01" for z in range(4))
+            elif code in ("2309", "30C9"):
+                q = "".join(f"{z:02X}{0x0700 + 7 * z:04X}" for z in range(8))
+            else:
+                q = f[46:]
+            seq.append((dtm, f"{f[:7]}{nb} --:------ {nb} {code} {len(q) // 2:03d} {q}", 1))
+            c("hist_neighbour_array")
         if r.random() < p_tgt:
             g = targeted(f, r)
             if g is not None:
@@ -167,9 +183,9 @@ def build_history(r, k: dict, *, n_lo=30, n_hi=220) -> list[dict]:
             if g is not None:
                 f = g[4:]
                 c("hist_field_mutation")
-        seq.append((dtm, f))
+        seq.append((dtm, f, src))
         if r.random() < p_dup:
-            seq.append((dtm, f))
+            seq.append((dtm, f, src))
             c("hist_duplicate")
     i = 0
     while i + 1 < len(seq):
@@ -181,7 +197,7 @@ def build_history(r, k: dict, *, n_lo=30, n_hi=220) -> list[dict]:
     ops = []
     prev = None
     tm = k.get("time_mode", "fast")
-    for dtm, f in seq:
+    for dtm, f, src in seq:
         gap = 0.004
         if tm == "log":
             s = _secs(dtm)
@@ -189,7 +205,7 @@ def build_history(r, k: dict, *, n_lo=30, n_hi=220) -> list[dict]:
                 gap = min(s - prev, k.get("gap_cap", 30.0))
             prev = s
             gap = max(gap, 0.004)
-        ops.append({"op": "rx", "f": f, "gap": round(gap, 3)})
+        ops.append({"op": "rx", "f": f, "gap": round(gap, 3)} | ({"src": 1} if src else {}))
     return ops
 
 
@@ -218,8 +234,12 @@ def generate(plan) -> None:
         from . import state_restore
 
         return state_restore.generate(plan, build_history)
+    # non-interference twin: a second gateway hears the same history minus the spliced-in system (eavesdropping off only)
+    twin_wanted = bool(sc == "views" and not k["eavesdrop"] and not ff and r.random() < 0.8)
+    k["p_neighbour"] = r.choice([0.0, 0.3, 1.0]) if twin_wanted else 0.0
     ops = build_history(r, k)
     n = len(ops)
+    k["twin"] = bool(twin_wanted and any(o.get("src") for o in ops))
     extra: list[tuple[int, dict]] = []
     n_views = r.choice([1, 2, 4, 8])
     for _ in range(n_views):
@@ -227,7 +247,7 @@ def generate(plan) -> None:
     n_state = r.choice([0, 1, 2, 4]) if sc == "views" else r.choice([0, 1])
     for _ in range(n_state):
         extra.append((r.randrange(n + 1), {"op": "state", "exp": r.random() < 0.5}))
-    if n_state and sc == "views":
+    if n_state and sc == "views" and not k["twin"]:
         for _ in range(r.choice([0, 1, 2])):
             extra.append((r.randrange(n // 3, n + 1), {"op": "restore", "k": r.randrange(8),
                                                       "how": r.choice(["plain", "plain", "cancel", "concurrent", "damaged", "twice"])}))
@@ -422,6 +442,16 @@ async def reload_check(ctx, gwy, small: dict, where: str) -> None:
 # the run
 # ---------------------------------------------------------------------------------------------------------
 
+class _Quiet:
+    """stands in for ctx where results are not judged"""
+
+    def violate(self, *a, **k) -> None:
+        pass
+
+    def probe(self, *a, **k) -> None:
+        pass
+
+
 class InconsistencyLog(logging.Handler):
     def __init__(self) -> None:
         super().__init__(level=logging.WARNING)
@@ -466,6 +496,32 @@ async def run(ctx) -> None:
     old_level = lg.level
     lg.setLevel(logging.WARNING)
     await gwy.start()
+    twin = ser_t = None
+    foreign: set[int] = set()
+    if k("twin"):
+        def ids_of(f):
+            return {x for x in (f[7:16], f[17:26], f[27:36]) if x[2:3] == ":" and x not in ("--:------", "63:262142", "18:000730")}
+
+        base_ids: set[str] = set()
+        for o in plan.ops:
+            if o["op"] == "rx" and not o.get("src"):
+                base_ids |= ids_of(o["f"])
+        spliced = {i: ids_of(o["f"]) for i, o in enumerate(plan.ops) if o["op"] == "rx" and o.get("src")}
+        grew = True
+        while grew:  # a spliced packet that names a device of the known history belongs to it, and so do the devices it names
+            grew = False
+            for i, ids in spliced.items():
+                if ids & base_ids and not ids <= base_ids:
+                    base_ids |= ids
+                    grew = True
+        foreign = {i for i, ids in spliced.items() if not (ids & base_ids)}
+        if foreign:
+            ser_t = hub.add_port("/dev/simT", GID)
+            hub.cast_between_ports = False
+            twin = Gateway("/dev/simT", config={"disable_discovery": True, "enforce_known_list": False, "enable_eavesdrop": False,
+                                               "max_zones": k("max_zones", 12)})
+            await twin.start()
+            ctx.probe("twin_runs")
     await asyncio.sleep(0.3)
     snaps: list[tuple[dict, dict]] = []
     probe_n = [0]
@@ -559,11 +615,20 @@ async def run(ctx) -> None:
                 t = loop.create_task(gwy._restore_cached_packets(pk))
                 await asyncio.sleep(0)
                 await asyncio.sleep(0)
+                before = (gwy._engine_state is not None, gwy._protocol._msg_handler is None, gwy._disable_sending)
                 try:
                     gwy.get_state()
                 except RuntimeError:
                     ctx.probe("get_state_refused_while_restoring")
-                await t
+                    after = (gwy._engine_state is not None, gwy._protocol._msg_handler is None, gwy._disable_sending)
+                    if after != before and not t.done():
+                        ctx.violate("C13", "refused_snapshot_changed_engine", "", f"{where}: a get_state() that was refused (a restore was "
+                                    f"under way) changed the engine: (paused, handler detached, sending disabled) {before} -> {after}")
+                try:
+                    await t
+                except Exception as err:  # noqa
+                    ctx.violate("C13", "restore_failed", f"concurrent:{exc_sig(err)}", f"{where}: a restore that was under way failed with "
+                                f"{type(err).__name__}({err}) because a snapshot was asked for (and refused) meanwhile")
             elif how == "twice":
                 await gwy._restore_cached_packets(pk)
                 await gwy._restore_cached_packets(pk)
@@ -600,14 +665,23 @@ async def run(ctx) -> None:
         where = f"op {si} ({kind}) after {n_rx} packets"
         if kind == "rx":
             hub.rx_line(ser, o["f"])
+            if twin is not None and si not in foreign:
+                hub.rx_line(ser_t, o["f"])
             n_rx += 1
             await asyncio.sleep(o.get("gap", 0.004))
             if n_rx % 16 == 0:
                 moves(where)
         elif kind == "views":
             ctx.probe("views_read", read_views(ctx, gwy, where))
+            if twin is not None:  # the same reads (a read is what notices an expired message), results not judged here
+                read_views(_Quiet(), twin, where)
         elif kind == "state":
             await do_state(o, where)
+            if twin is not None:
+                try:
+                    twin.get_state(include_expired=bool(o.get("exp")))
+                except Exception:  # noqa
+                    pass
         elif kind == "restore":
             await do_restore(o, where)
         elif kind == "adv":
@@ -622,7 +696,43 @@ async def run(ctx) -> None:
             small = schema_check(ctx, gwy, where)
             if small is not None and o.get("reload"):
                 await reload_check(ctx, gwy, small, where)
-    # foreign traffic never stops the tracking of the system we know
+    # foreign traffic never stops the tracking of the systems we know: the twin heard the same history without the foreign
+    # system's packets -- every system it knows must look the same in both gateways
+    if twin is not None and not dead[0]:
+        read_views(_Quiet(), gwy, "pre-compare")
+        read_views(_Quiet(), twin, "pre-compare")
+        await asyncio.sleep(0.05)
+        import json as _json
+
+        def dump(x):
+            return _json.dumps(x, sort_keys=True, default=str)
+
+        for t2 in twin.systems:
+            t1 = gwy.system_by_id.get(t2.ctl.id)
+            if t1 is None:
+                ctx.violate("C13", "interference", "system_missing", f"the known system {t2.ctl.id} does not exist in the gateway that also "
+                            f"heard {len(foreign)} packets of an unrelated system")
+                continue
+            for view in ("schema", "params", "status"):
+                try:
+                    a, b = dump(shrink(getattr(t1, view))), dump(shrink(getattr(t2, view)))
+                except Exception as err:  # noqa
+                    ctx.probe(f"twin_view_raised_{type(err).__name__}")
+                    continue
+                if a != b:
+                    da, db = _json.loads(a), _json.loads(b)
+                    keys = [kk for kk in sorted(set(da) | set(db)) if da.get(kk) != db.get(kk)]
+                    sub = keys[0] if keys else ""
+                    za, zb = da.get(sub), db.get(sub)
+                    if isinstance(za, dict) and isinstance(zb, dict):
+                        k2 = [kk for kk in sorted(set(za) | set(zb)) if za.get(kk) != zb.get(kk)]
+                        detail = f"{sub}.{k2[0]}: with foreign traffic {str(za.get(k2[0]))[:300]} / without {str(zb.get(k2[0]))[:300]}" if k2 else sub
+                    else:
+                        detail = f"{sub}: with foreign traffic {str(za)[:300]} / without {str(zb)[:300]}"
+                    ctx.violate("C13", "interference", f"{view}.{sub}", f"the known system {t2.ctl.id}'s {view} differs between a gateway "
+                                f"that also heard {len(foreign)} packets of an unrelated system ({k('splice')}) and one that did not: {detail}")
+        ctx.probe("twin_comparisons")
+        await twin.stop()
     tcs = None
     try:
         tcs = gwy.tcs
